@@ -43,6 +43,9 @@ var verbatimDup = map[int]bool{}
 // hiccup) and then goes on; the reader is the same object, so the link's window is the same too.
 var transportGap = map[int]bool{}
 
+// sharedKeyForHistories, when set, is the key object the history reader is given (instead of a key value of its own).
+var sharedKeyForHistories *frame.V2Key
+
 // linkOf picks the signature link id of the i-th frame of a history: the replay window belongs to the
 // reader (the link), not to the link id a frame claims, so histories mix link ids.
 func linkOf(seq byte) byte { return []byte{3, 3, 0, 255, 7, 3, 200, 1}[int(seq)%8] }
@@ -99,7 +102,11 @@ func runHistoryDialect(hist []uint64, di *dialectInfo, known []bool) (string, er
 			off += l
 		}
 	}
-	res, terr, herr := readAll(&chunkReader{data: stream, failAt: -1, transient: tr}, drw, keyOf(&c07Key), len(stream)+2+len(tr))
+	hk := keyOf(&c07Key)
+	if sharedKeyForHistories != nil {
+		hk = sharedKeyForHistories
+	}
+	res, terr, herr := readAll(&chunkReader{data: stream, failAt: -1, transient: tr}, drw, hk, len(stream)+2+len(tr))
 	if herr != nil {
 		return "", herr
 	}
@@ -200,7 +207,7 @@ func TestC07WindowEnumerated(t *testing.T) {
 
 func TestC07WindowRandom(t *testing.T) {
 	rec := evid.New(t, "C07", "rapid histories (<=40 frames) mixing boundary values, random 48-bit timestamps and newest+-delta around 1,000,000; model comparison at every step; non-trivial = some frame older than newest but inside the window, on the boundary, or newest < 1,000,000; distinct by hash of the history")
-	rec.Require("inside-window", "on-boundary", "just-outside", "newest-below-window", "forged-interleaved", "dialect-reader-known+unknown-messages", "frame-repeated-byte-for-byte", "run-of-8+-stale-frames-with-rising-timestamps", "transport-error-between-frames", "same-key-stored-again-between-frames")
+	rec.Require("inside-window", "on-boundary", "just-outside", "newest-below-window", "forged-interleaved", "dialect-reader-known+unknown-messages", "frame-repeated-byte-for-byte", "run-of-8+-stale-frames-with-rising-timestamps", "transport-error-between-frames", "same-key-stored-again-between-frames", "application-restamps-received-frames", "second-link-with-the-same-key-object")
 	common, _ := dialects(t)
 	evid.Check(t, rec, evid.N(40000, 200000), func(t *rapid.T) {
 		readBufSize = 512
@@ -316,6 +323,44 @@ func TestC07WindowRandom(t *testing.T) {
 				t.Fatalf("%s", msg)
 			}
 			cs = append(cs, "same-key-stored-again-between-frames")
+		}
+		// the same history while the application re-stamps every frame it has received (a forwarder that signs
+		// with its own clock does that to the frame value it was given): the frame is the application's, the
+		// window is the reader's
+		if rapid.IntRange(0, 2).Draw(t, "application_restamps_received_frames") == 0 {
+			stamps := rapid.SliceOfN(rapid.OneOf(rapid.SampledFrom([]uint64{0, 1, 1 << 47, 1<<48 - 1}), rapid.Uint64Range(0, 1<<48-1)), 1, 8).Draw(t, "stamps")
+			readAllGot = func(fr frame.Frame, call int) {
+				if ff, ok := fr.(*frame.V2Frame); ok {
+					ff.SignatureTimestamp = stamps[call%len(stamps)]
+					ff.SignatureLinkID ^= 0x5A
+				}
+			}
+			_, err := runHistory(hist, nil)
+			readAllGot = nil
+			if err != nil {
+				msg := fmt.Sprintf("with the application overwriting the signature timestamp of every frame it received (values %v): %v", stamps, err)
+				evid.ReplayNote("C07", "TestC07WindowRandom", msg)
+				t.Fatalf("%s", msg)
+			}
+			cs = append(cs, "application-restamps-received-frames")
+		}
+		// a second link whose reader was given the same key object as the first: what the first link accepted is
+		// none of its business ("none yet" for its first frame, whatever that frame's timestamp is)
+		if rapid.IntRange(0, 2).Draw(t, "second_link_same_key_object") == 0 {
+			shared := keyOf(&c07Key)
+			first := signedAt(rapid.SampledFrom([]uint64{1<<48 - 1, 1 << 47, 1 << 40}).Draw(t, "first_link_ts"), 1)
+			if res, _, herr := readAll(&chunkReader{data: first, failAt: -1}, nil, shared, 4); herr != nil || len(res) != 1 || res[0].err != nil {
+				t.Fatalf("BROKEN: first link: %v %v", herr, res)
+			}
+			sharedKeyForHistories = shared
+			_, err := runHistory(hist, nil)
+			sharedKeyForHistories = nil
+			if err != nil {
+				msg := fmt.Sprintf("on a second reader that was given the same key object as a reader that had accepted a frame of another link before: %v", err)
+				evid.ReplayNote("C07", "TestC07WindowRandom", msg)
+				t.Fatalf("%s", msg)
+			}
+			cs = append(cs, "second-link-with-the-same-key-object")
 		}
 		// the same history on a reader that has a dialect, the frames carrying known and unknown messages
 		if rapid.Bool().Draw(t, "with_dialect") {
